@@ -139,3 +139,48 @@ def _dtype(spec, model):
         if r['name'] == spec['name']:
             return {'confirmed': not r['ok'], 'observed': r['detail'], 'expected': 'the integral of n/p of the interpolant, whatever number format the data are stored in'}
     return {'confirmed': False, 'error': 'case not found'}
+
+
+def array_query_cases():
+    """a spreading pressure asked for at several pressures at once (increasing, decreasing, rotated order): where the call returns,
+    every value belongs to the pressure at its own position -- it equals the scalar query"""
+    import warnings
+    import pygaps
+    import pygaps.modelling as pgm
+    from pgv.checks.models_common import DOMAIN
+    pygaps.logger.disabled = True
+    from pgv.replayers.c10 import _model
+    meta = dict(material='pgv_c11', adsorbate='nitrogen', temperature=77.355, pressure_mode='absolute', pressure_unit='bar', loading_basis='molar',
+                loading_unit='mmol', material_basis='mass', material_unit='g', temperature_unit='K')
+    for name in sorted(DOMAIN):
+        m = _model(name, None, {})
+        m.pressure_range, m.loading_range = (0.0, 10.0), (0.0, 10.0)
+        try:
+            iso = pygaps.ModelIsotherm(model=m, **meta)
+        except Exception:
+            continue
+        probs, claimed = [], 0
+        with warnings.catch_warnings():
+            warnings.simplefilter('ignore')
+            for order in ([0.1, 0.3, 0.5], [0.5, 0.3, 0.1], [0.3, 0.5, 0.1], [0.5, 0.1, 0.3], [0.2, 0.7, 0.4, 0.1]):
+                for kw, f in (({}, 1.0), ({'pressure_unit': 'kPa'}, 100.0)):
+                    try:
+                        one = numpy.asarray([float(numpy.asarray(iso.spreading_pressure_at(q * f, **kw)).ravel()[0]) for q in order])
+                    except Exception:
+                        continue
+                    try:
+                        arr = numpy.asarray(iso.spreading_pressure_at([q * f for q in order], **kw), dtype=float).ravel()
+                    except Exception:
+                        continue  # arrays refused: no answer, no claim
+                    claimed += 1
+                    if arr.shape != one.shape or not numpy.allclose(arr, one, rtol=1e-8):
+                        probs.append(f"at {[q * f for q in order]}: array call {arr}, one at a time {one}")
+        yield {'name': f"array_query|{name}", 'ok': not probs, 'detail': '; '.join(probs[:2]) or f"{claimed} array calls answered"}
+
+
+@replayer('c11.array')
+def _array(spec, model):
+    for r in array_query_cases():
+        if r['name'] == spec['name']:
+            return {'confirmed': not r['ok'], 'observed': r['detail'], 'expected': 'each value equals the scalar query at the pressure in its own position'}
+    return {'confirmed': False, 'error': 'case not found'}
